@@ -501,3 +501,31 @@ func VerifDistSetStep() {
 	}
 	ds.Release()
 }
+
+// C10 under the parallel insert workers (NUMCPU-1 of them): a batch of two inserts into a small
+// arbitrary graph, explored under the scheduling regime of the obligation: the graph is
+// well-formed afterwards (degree bound in particular) whatever the interleaving.
+func VerifVamanaParallelInsert() {
+	g := newGraph(vparam("N", 1), vparam("R", 1), vparam("SS", 2))
+	top := uint64(vparam("N", 1) + 1)
+	g.iv.maxNodeId.Store(top)
+	batch := []IndexVectorChange{{Id: top + 1, Vector: []float32{1, 1}}, {Id: top + 2, Vector: []float32{2, 2}}}
+	q := make(chan IndexVectorChange)
+	go func() {
+		for _, c := range batch {
+			q <- c
+		}
+		close(q)
+	}()
+	vsched(vparam("DELAYS", 1))
+	err := <-g.iv.InsertUpdateDelete(context.Background(), q)
+	vcover("reached")
+	vassert("batch-ok", err == nil)
+	if err != nil {
+		return
+	}
+	g.wellFormed("post", top+2)
+	cold := cache.NewItemCache[uint64, *graphNode](g.bucket)
+	g.iv.nodeStore = cold
+	g.wellFormed("cold", top+2)
+}
